@@ -145,6 +145,10 @@ def worker(args):
                     # one root cause whatever the model: obj.flush() writes the object's new link but leaves it in the
                     # pending added/removed set of the collection on the other side
                     sig = '*|link-change>obj.flush()|r_ccount|pending link counted again after obj.flush()'
+                if a == ('exc', 'NotImplementedError'):
+                    # one root cause whatever the history and the read: an object first met as an unloaded reference of the base class
+                    # and touched before it is loaded cannot be refined to its subclass when its row arrives
+                    sig = '%s|read-raises-NotImplementedError' % rel
                 presigs[pre] = sig
                 sub.violation(sig, dict(model=name, fixture=fixture, history=small, read=r, in_session=a, fresh_session=b),
                               'after %r the read %r answers %r inside the session but %r from the committed database' % (small, r, a, b))
